@@ -1013,8 +1013,12 @@ MUTANTS = [
     dict(id="C03-M6", file=_D, old="        var_dim += i + 1", new="        var_dim += 1", rule="R-C03-2", what="offset advances by one"),
     dict(id="C03-M7", file=_D, old="            laplacian += D2u.narrow(-1, i, 1)", new="            laplacian += D2u.narrow(-1, 0, 1)", rule="R-C03-2", what="always the first second-derivative component"),
     dict(id="C03-M8", file=_D, old="    return 0.5 * (jac_matrix + torch.transpose(jac_matrix, 1, 2))", new="    return 0.5 * (jac_matrix + torch.transpose(jac_matrix, 0, 1))", rule="R-C03-3", what="transpose of the batch axis"),
+    dict(id="C03-M9", file=_D, old="    if any(g.dim() > 2 for g in grad):\n", new="    if any(g.dim() > 3 for g in grad):\n", rule="R-C03-10", what="operator batches joined along the point axis again (the repaired defect)"),
+    dict(id="C03-M10", file=_D, old="        return torch.cat(grad, dim=-1)\n    return torch.column_stack(grad)", new="        return torch.cat(grad, dim=-1)\n    return torch.hstack(grad)", rule="R-C03-10", what="flat gradients appended below each other"),
+    dict(id="C03-M11", file=_D, old="        du = torch.autograd.grad(du.sum(), inp, create_graph=True)[0]", new="        du = torch.autograd.grad(du.sum(), inp, create_graph=True)[0]\n        if du.grad_fn is None:\n            return torch.zeros_like(inp)", rule="R-C03-4", what="graph test on the derivative just taken"),
 ]
 TWINS = [
     dict(id="C03-T1", file=_D, old="        var_dim += i + 1", new="        var_dim += vari.shape[-1]", what="explicit dimension"),
     dict(id="C03-T2", file=_D, old="            divergence = divergence + Du.narrow(-1, i, 1)", new="            divergence = divergence + Du[..., i : i + 1]", what="slice instead of narrow"),
+    dict(id="C03-T3", file=_D, old="    if any(g.dim() > 2 for g in grad):\n", new="    if max(g.dim() for g in grad) >= 3:\n", what="rank test spelled with max"),
 ]
